@@ -17,7 +17,8 @@ use std::task::{Context, Poll, Waker};
 pub enum ConnectPlan {
     Accept,
     Refuse,
-    /// never completes (the connect timeout, if any, ends it)
+    /// no answer to the SYN: ends with the configured connect timeout, or with the operating system's own (modelled as
+    /// `OS_CONNECT_TIMEOUT_MS`) - a real `connect()` never blocks for ever
     Hang,
 }
 
@@ -109,6 +110,9 @@ impl Future for AcceptFuture {
     }
 }
 
+/// what the operating system's SYN retries add up to when nobody answers (Windows: about 21 s, Linux: about 127 s)
+pub const OS_CONNECT_TIMEOUT_MS: u64 = 21_000;
+
 struct Never;
 impl Future for Never {
     type Output = Option<PhysLayer>;
@@ -138,7 +142,10 @@ impl SimNet for SimNetwork {
         }
         match plan {
             ConnectPlan::Refuse => Box::pin(std::future::ready(None)),
-            ConnectPlan::Hang => Box::pin(Never),
+            ConnectPlan::Hang => Box::pin(async {
+                tokio::time::sleep(std::time::Duration::from_millis(OS_CONNECT_TIMEOUT_MS)).await;
+                None
+            }),
             ConnectPlan::Accept => {
                 let c2s = io::new_chan();
                 let s2c = io::new_chan();
@@ -153,7 +160,7 @@ impl SimNet for SimNetwork {
                     c.jitter_ms = n.jitter.1;
                 }
                 n.chunk_seed = n.chunk_seed.wrapping_add(0x9E37);
-                let sock = SimSocket::new("client", s2c.clone(), c2s.clone(), n.chunk, n.chunk_seed);
+                let sock = SimSocket::new("client", s2c.clone(), c2s.clone(), n.chunk, n.chunk_seed).closing_on_drop();
                 n.accepted.push_back(Accepted {
                     to_client: s2c,
                     from_client: c2s,
